@@ -55,11 +55,14 @@ APP_ACTIONS = {
     'close': lambda ws: ws.close(1000, 'goodbye'),      # explicit arguments: the defaults are not part of any property
     'close-3001': lambda ws: ws.close(3001, 'app'),
     'close-none': lambda ws: ws.close(None, ''),          # a Close frame without a status code (empty payload)
+    'close-bad-bytes': lambda ws: ws.close(1000, b'caf\xc3'),     # a bytes reason is passed through as it is
+    'close-too-long': lambda ws: ws.close(1000, 'r' * 124),       # cannot be sent: ValueError, nothing written, nothing changed
     'send_text!fail': lambda ws: (W.current().fail_sendall.append(OSError(32, 'Broken pipe (injected)')), ws.send_text('hi')),
 }
 APP_FRAMES = {
     'send_text': (TEXT, b'hi'), 'send_binary': (BINARY, b'\x00\x01'), 'send_ping': (PING, b'k'), 'send_pong': (PONG, b'u'),
     'close': (CLOSE, ref_ws.close_payload(1000, b'goodbye')), 'close-3001': (CLOSE, ref_ws.close_payload(3001, b'app')), 'close-none': (CLOSE, b''),
+    'close-bad-bytes': (CLOSE, ref_ws.close_payload(1000, b'caf\xc3')),
 }
 
 
@@ -409,6 +412,15 @@ class ConnModel(object):
         got, frames = allgot[before:], allframes[before:]
         is_close = action.startswith('close')
         usable = self.sock_usable(world)
+        if action == 'close-too-long':
+            # arguments that cannot be sent: TypeError/ValueError, not a byte written, and the connection goes on as if nothing had happened
+            if not isinstance(err, (TypeError, ValueError)):
+                self.problem('app-exception', 'close() with a 124-byte reason at %s: %s' % (e.name, 'returned normally' if err is None else repr(err)))
+            if delta:
+                self.problem('extra-close', 'close() with a 124-byte reason at %s wrote %d bytes' % (e.name, len(delta)))
+                self.exp_wire.extend(got)
+            self.sites.add('close-rejected')
+            return
         if err is not None and not isinstance(err, W.lomond.errors.WebSocketError):
             self.problem('app-exception', '%s at %s raised %s: %s' % (action, e.name, type(err).__name__, err))
             return
